@@ -116,21 +116,21 @@ func (m *MBar) Apply(st *Step) bool {
 // MFrame is what the model predicts for one render cycle.
 type MFrame struct {
 	// Groups top to bottom; bars with equal priority may appear in any relative order.
-	Order     []int       // one admissible top-to-bottom order
-	Prio      map[int]int // priority of every shown bar in this frame
-	Unordered bool        // frame right after a lazy priority change: any order
-	SD        map[int]int // terminal-frame counter shown for terminal bars (0,1,2..)
-	State     map[int]MBar
-	Persist   []int       // bars whose rows become persistent with this frame (popped)
-	Text      []string    // user text carried by this frame
-	Rows      map[int]int // rows (main+extender) per shown bar
-	Height    int
-	NextCUU   int // cursor-up count the next frame must start with
-	CUU       int // cursor-up count this frame starts with
-	ExtRev    map[int]bool
-	Visible   []int // bars whose main row survives the height limit, top to bottom
-	WriteFailed bool // the output writer returned an error for this frame (its bytes are lost or cut)
-	Ambiguous bool  // clipped frame whose cut depends on the order of equal priorities (or a lazy change)
+	Order       []int       // one admissible top-to-bottom order
+	Prio        map[int]int // priority of every shown bar in this frame
+	Unordered   bool        // frame right after a lazy priority change: any order
+	SD          map[int]int // terminal-frame counter shown for terminal bars (0,1,2..)
+	State       map[int]MBar
+	Persist     []int       // bars whose rows become persistent with this frame (popped)
+	Text        []string    // user text carried by this frame
+	Rows        map[int]int // rows (main+extender) per shown bar
+	Height      int
+	NextCUU     int // cursor-up count the next frame must start with
+	CUU         int // cursor-up count this frame starts with
+	ExtRev      map[int]bool
+	Visible     []int // bars whose main row survives the height limit, top to bottom
+	WriteFailed bool  // the output writer returned an error for this frame (its bytes are lost or cut)
+	Ambiguous   bool  // clipped frame whose cut depends on the order of equal priorities (or a lazy change)
 }
 
 type mcBar struct {
@@ -199,7 +199,35 @@ func Simulate(sc *Scenario) *Sim {
 	lazyDirty := false
 	delayed := sc.Cfg.Delay
 	nextCUU := 0
-	steps := append([]Step(nil), sc.Steps...)
+	// a tick that carries a priority change: the change is issued while the cycle
+	// renders and cannot be served before it is over, i.e. it takes effect right
+	// after that frame
+	var steps []Step
+	for _, st := range sc.Steps {
+		switch {
+		case st.Op == "tick" && st.Text == "prio":
+			steps = append(steps, Step{Op: "tick"}, Step{Op: "prio", Bar: st.Bar, N: st.N})
+		case st.Op == "tick" && (st.Text == "uprio" || st.Text == "uprio-lazy"):
+			steps = append(steps, Step{Op: "tick"}, Step{Op: "uprio", Bar: st.Bar, N: st.N, Flag: st.Text == "uprio-lazy"})
+		case st.Op == "add" && st.Flag && (sc.Cfg.Refresh == "manual" || sc.Cfg.Refresh == "autoinj"):
+			// a frame requested from inside an option callback of Add is served once Add is through
+			steps = append(steps, Step{Op: "add", Bar: st.Bar}, Step{Op: "tick"})
+		default:
+			steps = append(steps, st)
+		}
+	}
+	applyPrio := func(b *mcBar, n int64, lazy bool) {
+		if b == nil || !b.added {
+			return
+		}
+		if !b.inHeap || b.popped {
+			return // parked, gone, or popped to the top (its place is final): ignored by the heap manager
+		}
+		b.prio = int(n)
+		if lazy {
+			lazyDirty = true
+		}
+	}
 	// epilogue: finishing the bars (no frames follow in manual mode)
 	for i := range steps {
 		st := &steps[i]
@@ -260,16 +288,7 @@ func Simulate(sc *Scenario) *Sim {
 			}
 			b.m.Apply(st)
 		case "prio", "uprio":
-			if b == nil || !b.added {
-				continue
-			}
-			if !b.inHeap || b.popped {
-				continue // parked, gone, or popped to the top (its place is final): ignored by the heap manager
-			}
-			b.prio = int(st.N)
-			if st.Op == "uprio" && st.Flag {
-				lazyDirty = true
-			}
+			applyPrio(b, st.N, st.Op == "uprio" && st.Flag)
 		case "write":
 			if !delayed {
 				pendingText = append(pendingText, st.Text)
@@ -482,6 +501,14 @@ func EndState(sc *Scenario) (end []EndBar, cancelled bool, ok bool) {
 		}
 		if st.Op == "cancel" || st.Op == "shutdown" {
 			cancelled = true
+			// an Add that follows may still be accepted (it races with the shutdown):
+			// such a bar is ended by the cancellation at once
+			for _, st2 := range sc.Steps[i+1:] {
+				if st2.Op == "add" && st2.Bar >= 0 && st2.Bar < len(ms) && ms[st2.Bar] == nil {
+					ms[st2.Bar] = NewMBar(sc.Bars[st2.Bar].Total)
+					end[st2.Bar].Added = true
+				}
+			}
 			break
 		}
 		if st.Bar < 0 || st.Bar >= len(ms) {
